@@ -4,7 +4,7 @@
 // license that can be found in the LICENSE file or at
 // https://opensource.org/licenses/MIT.
 
-use parking_lot::MutexGuard;
+use parking_lot::{Mutex, MutexGuard};
 use std::collections::VecDeque;
 use std::ops::Range;
 use std::rc::Rc;
@@ -70,8 +70,11 @@ pub(crate) struct CompactionWorker {
 
     This is used to try to gracefully shutdown the background compaction thread during database
     shutdown.
+
+    The worker is shared with client iterators (for read-triggered compactions), so the handle is
+    taken through a lock instead of requiring exclusive access to the worker.
     */
-    maybe_background_compaction_handle: Option<JoinHandle<()>>,
+    maybe_background_compaction_handle: Mutex<Option<JoinHandle<()>>>,
 
     /// Sender end of the channel that the worker utilizes to schedule tasks.
     task_sender: mpsc::SyncSender<TaskKind>,
@@ -162,7 +165,7 @@ impl CompactionWorker {
         );
 
         let worker = Self {
-            maybe_background_compaction_handle: Some(background_thread_handle),
+            maybe_background_compaction_handle: Mutex::new(Some(background_thread_handle)),
             task_sender,
         };
 
@@ -197,8 +200,9 @@ impl CompactionWorker {
 
     This method should only be called when the database client is being dropped.
     */
-    pub(crate) fn stop_worker_thread(&mut self) -> Option<JoinHandle<()>> {
-        if let Some(compaction_thread_handle) = self.maybe_background_compaction_handle.take() {
+    pub(crate) fn stop_worker_thread(&self) -> Option<JoinHandle<()>> {
+        let maybe_thread_handle = self.maybe_background_compaction_handle.lock().take();
+        if let Some(compaction_thread_handle) = maybe_thread_handle {
             if self.task_sender.send(TaskKind::Terminate).is_err() {
                 log::debug!("Compaction worker thread has already been terminated.");
             }
